@@ -8,8 +8,9 @@ from bounded.run import Suite
 
 def _terms():
     from rdflib import URIRef
-    NS = [URIRef("http://ex.org/"), URIRef("http://ex.org/a/"), URIRef("http://ex.org/a#"), URIRef("urn:x:")]
-    IRIS = [URIRef("http://ex.org/a/b"), URIRef("http://ex.org/a#c"), URIRef("http://ex.org/d"), URIRef("urn:x:y")]
+    # nested / overlapping namespaces, one of them not ending at a '/' or '#' boundary (like obo:GO_)
+    NS = [URIRef("http://ex.org/"), URIRef("http://ex.org/a/"), URIRef("http://ex.org/a/X_"), URIRef("urn:x:")]
+    IRIS = [URIRef("http://ex.org/a/b"), URIRef("http://ex.org/a/X_1"), URIRef("http://ex.org/d"), URIRef("urn:x:y")]
     return NS, IRIS
 
 
@@ -152,6 +153,15 @@ class ManagerBind(Suite):
                 if str(bound) + local != str(u):
                     return (f"qname-expands-back: {where}: {fn}({u}) = {q!r} but {pfx!r} is bound to {bound}, "
                             f"which expands to {str(bound) + local}")
+                if fn == "qname":
+                    # URIRef.n3(namespace_manager) must expand back as well (it goes through normalizeUri)
+                    n3 = u.n3(nm)
+                    if not n3.startswith("<"):
+                        p3, l3 = n3.split(":", 1)
+                        b3 = g.store.namespace(p3)
+                        if b3 is None or str(b3) + l3 != str(u):
+                            return (f"n3-expands-back: {where}: {u}.n3(manager) = {n3!r} expands to "
+                                    f"{None if b3 is None else str(b3) + l3}")
                 if fn == "curie" or ":" in q:
                     try:
                         back = nm.expand_curie(q if ":" in q else ":" + q)
